@@ -75,6 +75,8 @@ def impl(case):
         return ['ok ' + _fields(g, tail)]
     if k == 'accept':
         return ['ok ' + hx(F.WebsocketFrame.key_to_accept(bytes.fromhex(case['key'])))]
+    if k == 'wsloop':
+        return _wsloop_impl(case)
     if k == 'mask':
         try:
             return ['ok ' + hx(F.WebsocketFrame.apply_mask(bytes.fromhex(case['data']), bytes.fromhex(case['mask'])))]
@@ -83,8 +85,48 @@ def impl(case):
     raise ValueError(k)
 
 
+def _wsloop_frames(case):
+    out = []
+    for fr in case['frames']:
+        out.append(rfc_encode(fr['flags'], fr['op'], fr['masked'], bytes.fromhex(fr['mask'] or ''), payload(fr['data'])))
+    return out
+
+
+class _Route:
+    def __init__(self):
+        self.log = []
+
+    def on_client_data(self, request, raw):
+        return raw
+
+    def on_websocket_message(self, g):
+        self.log.append('ok ' + _fields(g, b''))
+
+
+def _wsloop_impl(case):
+    """Several frames in ONE segment through the real HttpWebServerPlugin.on_client_data websocket loop
+    (one WebsocketFrame instance reused, reset() between frames): what the route plugin is handed per frame."""
+    from proxy.http.server.web import HttpWebServerPlugin
+    from proxy.http.server.protocols import httpProtocolTypes
+    p = object.__new__(HttpWebServerPlugin)
+    p._post_request_data_size = 0
+    p.request = None
+    p.route = _Route()
+    p.switched_protocol = httpProtocolTypes.WEBSOCKET
+    raw = b''.join(_wsloop_frames(case))
+    try:
+        p.on_client_data(memoryview(raw))
+    except Exception as e:
+        p.route.log.append('exc ' + exc_name(e))
+    log = p.route.log[:len(case['frames'])]
+    return log + ['missing'] * (len(case['frames']) - len(log))
+
+
 def model_lines(case):
     k = case['kind']
+    if k == 'wsloop':
+        # each frame is parsed from the start of what the previous one left: model = fresh parse per frame
+        return ['ws parse ' + hx(x) for x in _wsloop_frames(case)]
     if k == 'rt':
         fl = case['flags']
         return ['ws rt %d %d %d %d %d %d %s %s %s %s' % (
@@ -139,6 +181,15 @@ def oracle(case):
         want = base64.b64encode(hashlib.sha1(key + b'258EAFA5-E914-47DA-95CA-C5AB0DC85B11').digest())
         got = F.WebsocketFrame.key_to_accept(key)
         return None if got == want else 'accept-token-differs-from-rfc-formula'
+    if k == 'wsloop':
+        got = _wsloop_impl(case)
+        for fr, line in zip(case['frames'], got):
+            want = 'ok fin=%d rsv=%d%d%d op=%d masked=%d mask=%s data=%s tail=-' % (
+                fr['flags'][0], fr['flags'][1], fr['flags'][2], fr['flags'][3], fr['op'], fr['masked'],
+                (fr['mask'] if fr['masked'] else 'None'), hx(payload(fr['data'])))
+            if line != want:
+                return 'frame-sequence-in-one-segment-not-delivered-frame-by-frame'
+        return None
     if k == 'mask':
         d, m = bytes.fromhex(case['data']), bytes.fromhex(case['mask'])
         if len(m) != 4:
@@ -199,6 +250,11 @@ def corpus():
     for raw in ('', '81', '817e', '817e00', '817f0000', '8180', '818001', '8105', '810568656c6c6f77',
                 'ff7e000568656c6c6f', '01fe0002aabbccdd1122'):
         cs.append({'kind': 'parse', 'raw': raw})
+    def fr(op, masked, mask, hexdata, flags=(1, 0, 0, 0)):
+        return {'flags': list(flags), 'op': op, 'masked': masked, 'mask': mask, 'data': {'hex': hexdata}}
+    cs.append({'kind': 'wsloop', 'frames': [fr(1, 1, 'a1b2c3d4', '68656c6c6f'), fr(1, 0, None, '776f726c64')]})
+    cs.append({'kind': 'wsloop', 'frames': [fr(2, 0, None, '00ff'), fr(2, 1, '01020304', ''), fr(9, 0, None, '70')]})
+    cs.append({'kind': 'wsloop', 'frames': [fr(1, 1, '00000000', '61'), fr(1, 1, 'ffffffff', '62'), fr(1, 0, None, '63')]})
     cs.append({'kind': 'mask', 'data': '0102030405', 'mask': 'ffeeddcc'})
     cs.append({'kind': 'mask', 'data': '01', 'mask': 'ff'})
     cs.append({'kind': 'mask', 'data': '', 'mask': ''})
@@ -250,6 +306,16 @@ def generate(rng, tier):
     for _ in range(100 if not big else 2000):
         n = rng.choice([0, 1, 16, 20, 24, 55, 56, 57, 63, 64, 65, 100, 119, 120, 200])
         yield {'kind': 'accept', 'key': bytes(rng.randrange(256) for _ in range(n)).hex()}
+    for _ in range(120 if not big else 1500):
+        frames = []
+        for _k in range(rng.choice([2, 2, 3, 4])):
+            masked = rng.randrange(2)
+            n = rng.choice([0, 1, 2, 5, 125, 126, 127, 200])
+            frames.append({'flags': [rng.randrange(2) for _ in range(4)],
+                           'op': rng.choice([0, 1, 2, 9, 10, 3, 15]), 'masked': masked,
+                           'mask': bytes(rng.randrange(256) for _ in range(4)).hex() if masked else None,
+                           'data': {'n': n, 'a': rng.randrange(256), 'b': rng.randrange(256)}})
+        yield {'kind': 'wsloop', 'frames': frames}
     for _ in range(60 if not big else 600):
         yield {'kind': 'mask', 'data': bytes(rng.randrange(256) for _ in range(rng.randrange(12))).hex(),
                'mask': bytes(rng.randrange(256) for _ in range(rng.choice([0, 1, 3, 4, 4, 4, 5]))).hex()}
@@ -272,6 +338,8 @@ def search(rng):
 
 
 def describe(case):
+    if case['kind'] == 'wsloop':
+        return ['wsloop frames=%d' % len(case['frames'])]
     if case['kind'] == 'rt':
         n = len(payload(case['data'])) if 'hex' in case['data'] else case['data']['n']
         b = '0' if n == 0 else '<126' if n < 126 else '<64K' if n < 65536 else '>=64K'
@@ -280,4 +348,4 @@ def describe(case):
 
 
 def nontrivial(case):
-    return in_quantifier(case)
+    return in_quantifier(case) or case['kind'] == 'wsloop'
